@@ -268,19 +268,48 @@ theorem toWei_le_rel (cx : NumCtx) (ε : Rat) (hc : LiqRelRnd cx ε) (hε1 : ε 
   unfold toWei NumCtx.mul
   exact ⟨b3, le_trans b1 r2⟩
 
-theorem liqRound_eps35_four : (1 + EPS35) * (1 + 1 / 10 ^ 30) ≤ 1 + 2 / 10 ^ 30 := by
+theorem liqRound_eps35_four : (1 + EPS35) ^ 4 ≤ 1 + 1 / 10 ^ 30 := by
   rw [Num_EPS35.1]; norm_num
 
+/-- upper bounds of the reported amounts in every regime, for any context with relative rounding error ≤ ε -/
+theorem getAmountsS_upper (cx : NumCtx) (ε : Rat) (hc : LiqRelRnd cx ε) (hε0 : 0 ≤ ε) (hε1 : ε ≤ 1)
+    (s sa sb l d0 d1 : Nat) (h0 : 0 < sa) (h : sa < sb) :
+    (getAmountsS cx s sa sb l d0 d1).1 ≤ (amountsWei s sa sb l).1 / ((pow10 d0 : Nat) : Rat) * (1 + ε) ^ 3 ∧
+    (getAmountsS cx s sa sb l d0 d1).2 ≤ (amountsWei s sa sb l).2 / ((pow10 d1 : Nat) : Rat) * (1 + ε) ^ 3 := by
+  obtain ⟨g1, g2, g3⟩ := getAmountsS_regimes cx s sa sb l d0 d1 h
+  have B : ∀ x y : Nat, x < y →
+      getAmount1 cx x y l d1 ≤ amount1Wei x y l / ((pow10 d1 : Nat) : Rat) * (1 + ε) ^ 3 := by
+    intro x y hxy
+    have b := (C07_amount1_rounded cx ε hc hε0 hε1 x y l d1 hxy).2
+    have n : (0 : Rat) ≤ amount1Wei x y l / ((pow10 d1 : Nat) : Rat) :=
+      div_nonneg (amount1Wei_nonneg _ _ _) (le_of_lt (pow10_cast_pos d1))
+    have k : (1 + ε) ^ 2 ≤ (1 + ε) ^ 3 := pow_le_pow_right₀ (by linarith) (by norm_num)
+    exact le_trans b (mul_le_mul_of_nonneg_left k n)
+  by_cases c1 : s ≤ sa
+  · have hw : amountsWei s sa sb l = (amount0Wei sa sb l, 0) := by unfold amountsWei; rw [if_pos c1]
+    rw [hw, g1 c1]
+    exact ⟨(C07_amount0_rounded cx ε hc hε0 hε1 sa sb l d0 h0 h).2, by simp⟩
+  · by_cases c2 : s < sb
+    · have hw : amountsWei s sa sb l = (amount0Wei s sb l, amount1Wei sa s l) := by
+        unfold amountsWei; rw [if_neg c1, if_pos c2]
+      rw [hw, g2 (by omega) c2]
+      exact ⟨(C07_amount0_rounded cx ε hc hε0 hε1 s sb l d0 (by omega) c2).2, B sa s (by omega)⟩
+    · have hw : amountsWei s sa sb l = (0, amount1Wei sa sb l) := by
+        unfold amountsWei; rw [if_neg c1, if_neg c2]
+      rw [hw, g3 (by omega)]
+      exact ⟨by simp, B sa sb h⟩
+
 /-- **no over-spend, end to end under 35-digit arithmetic**: for ANY non-negative offered token amounts (no
-    representability assumption: `to_wei`'s own rounding is included) and valid ticks, the Decimals `get_amounts` reports for
-    the liquidity `get_liquidity` minted exceed the offers by at most 2·10⁻³⁰ relative. -/
+    representability assumption: `to_wei`'s own rounding is included — four roundings of 5·10⁻³⁵ in all) and valid ticks, the
+    Decimals `get_amounts` reports for the liquidity `get_liquidity` minted exceed the offers by at most 10⁻³⁰ relative. -/
 theorem C07_getLiquidity_no_overspend_round35 (s : Nat) (ta tb : Int) (a0 a1 : Rat) (d0 d1 : Nat)
     (h1 : minTick ≤ ta) (h2 : ta < tb) (h3 : tb ≤ maxTick) (ha0 : 0 ≤ a0) (ha1 : 0 ≤ a1) :
     ∃ L : Nat, getLiquidity NumCtx.pyG s ta tb a0 a1 d0 d1 = some (L : Int) ∧
-      (getAmounts NumCtx.pyG s ta tb L d0 d1).1 ≤ a0 * (1 + 2 / 10 ^ 30) ∧
-      (getAmounts NumCtx.pyG s ta tb L d0 d1).2 ≤ a1 * (1 + 2 / 10 ^ 30) := by
+      (getAmounts NumCtx.pyG s ta tb L d0 d1).1 ≤ a0 * (1 + 1 / 10 ^ 30) ∧
+      (getAmounts NumCtx.pyG s ta tb L d0 d1).2 ≤ a1 * (1 + 1 / 10 ^ 30) := by
   have hε := Num_EPS35
   have e0 : EPS35 ≤ 1 := le_trans hε.2.2 (by norm_num)
+  have e1 : 0 ≤ EPS35 := le_of_lt hε.2.1
   obtain ⟨p0, l0⟩ := toWei_le_rel NumCtx.pyG EPS35 C07_pyG_relRnd e0 a0 d0 ha0
   obtain ⟨p1, l1⟩ := toWei_le_rel NumCtx.pyG EPS35 C07_pyG_relRnd e0 a1 d1 ha1
   have hb := C07_tick_bounds ta tb h1 h2 h3
@@ -293,27 +322,31 @@ theorem C07_getLiquidity_no_overspend_round35 (s : Nat) (ta tb : Int) (a0 a1 : R
   simp only [Int.toNat_natCast] at hg
   have l0' : (w0 : Rat) ≤ a0 * ((pow10 d0 : Nat) : Rat) * (1 + EPS35) := by exact_mod_cast l0
   have l1' : (w1 : Rat) ≤ a1 * ((pow10 d1 : Nat) : Rat) * (1 + EPS35) := by exact_mod_cast l1
-  obtain ⟨n0, n1⟩ := C07_no_overspend_round35_all s (sqrtAt ta) (sqrtAt tb) w0 w1 d0 d1 hb.1 hb.2.1
+  set L := getLiquidityWei s (sqrtAt ta) (sqrtAt tb) w0 w1 with hL
+  obtain ⟨u0, u1⟩ := getAmountsS_upper NumCtx.pyG EPS35 C07_pyG_relRnd e1 e0 s (sqrtAt ta) (sqrtAt tb) L d0 d1 hb.1 hb.2.1
+  obtain ⟨n0, n1⟩ := C07_no_overspend s (sqrtAt ta) (sqrtAt tb) w0 w1 hb.1 hb.2.1
+  rw [← hL] at n0 n1
   have k := liqRound_eps35_four
   have hp0 := pow10_cast_pos d0
   have hp1 := pow10_cast_pos d1
+  have hcube : (0 : Rat) ≤ (1 + EPS35) ^ 3 := by positivity
   refine ⟨_, hg, ?_, ?_⟩
   · unfold getAmounts
-    refine le_trans n0 ?_
-    have : (w0 : Rat) / ((pow10 d0 : Nat) : Rat) ≤ a0 * (1 + EPS35) := by
+    have q : (amountsWei s (sqrtAt ta) (sqrtAt tb) L).1 / ((pow10 d0 : Nat) : Rat) ≤ a0 * (1 + EPS35) := by
       rw [div_le_iff₀ hp0]; linarith
-    calc (w0 : Rat) / ((pow10 d0 : Nat) : Rat) * (1 + 1 / 10 ^ 30)
-        ≤ a0 * (1 + EPS35) * (1 + 1 / 10 ^ 30) := mul_le_mul_of_nonneg_right this (by norm_num)
-      _ = a0 * ((1 + EPS35) * (1 + 1 / 10 ^ 30)) := by ring
-      _ ≤ a0 * (1 + 2 / 10 ^ 30) := mul_le_mul_of_nonneg_left k ha0
+    calc (getAmountsS NumCtx.pyG s (sqrtAt ta) (sqrtAt tb) L d0 d1).1
+        ≤ (amountsWei s (sqrtAt ta) (sqrtAt tb) L).1 / ((pow10 d0 : Nat) : Rat) * (1 + EPS35) ^ 3 := u0
+      _ ≤ a0 * (1 + EPS35) * (1 + EPS35) ^ 3 := mul_le_mul_of_nonneg_right q hcube
+      _ = a0 * (1 + EPS35) ^ 4 := by ring
+      _ ≤ a0 * (1 + 1 / 10 ^ 30) := mul_le_mul_of_nonneg_left k ha0
   · unfold getAmounts
-    refine le_trans n1 ?_
-    have : (w1 : Rat) / ((pow10 d1 : Nat) : Rat) ≤ a1 * (1 + EPS35) := by
+    have q : (amountsWei s (sqrtAt ta) (sqrtAt tb) L).2 / ((pow10 d1 : Nat) : Rat) ≤ a1 * (1 + EPS35) := by
       rw [div_le_iff₀ hp1]; linarith
-    calc (w1 : Rat) / ((pow10 d1 : Nat) : Rat) * (1 + 1 / 10 ^ 30)
-        ≤ a1 * (1 + EPS35) * (1 + 1 / 10 ^ 30) := mul_le_mul_of_nonneg_right this (by norm_num)
-      _ = a1 * ((1 + EPS35) * (1 + 1 / 10 ^ 30)) := by ring
-      _ ≤ a1 * (1 + 2 / 10 ^ 30) := mul_le_mul_of_nonneg_left k ha1
+    calc (getAmountsS NumCtx.pyG s (sqrtAt ta) (sqrtAt tb) L d0 d1).2
+        ≤ (amountsWei s (sqrtAt ta) (sqrtAt tb) L).2 / ((pow10 d1 : Nat) : Rat) * (1 + EPS35) ^ 3 := u1
+      _ ≤ a1 * (1 + EPS35) * (1 + EPS35) ^ 3 := mul_le_mul_of_nonneg_right q hcube
+      _ = a1 * (1 + EPS35) ^ 4 := by ring
+      _ ≤ a1 * (1 + 1 / 10 ^ 30) := mul_le_mul_of_nonneg_left k ha1
 
 /-! ### non-vacuity: the full range MIN..MAX tick, price at tick 0, 1000 USDC (6 decimals) and 1 ETH (18 decimals) -/
 example : ∃ u0 u1 L, newPosition NumCtx.exact (2 ^ 96) (-887272) 887272 1000 1 6 18 = some (u0, u1, L) ∧ 0 ≤ L ∧
